@@ -275,6 +275,12 @@ example : FreshTags (exPre ++ .delete true "g" "a" :: exPost) ∧
 example : FreshTags (exPre ++ .clear :: exPost) ∧ (run 5 {} exPre).1.q.size = 2 :=
   ⟨by decide, by decide +kernel⟩
 
+-- hypotheses of the general-state versions (`C08_paused_no_consumption`, `C08_delete_effect`)
+example : WF (run 5 {} exPre).1 := run_wf 5 _ {} wf_empty (by decide) (freshFor_empty _)
+example : FreshFor (pause (run 5 {} exPre).1 true "g" "a").1 exPost := by
+  unfold FreshFor; decide +kernel
+example : (1 : Nat) ∉ schedTags exPost := by decide
+
 end C08Ex
 
 end Sched
